@@ -226,6 +226,16 @@ class HttpServer:
 # ---------------------------------------------------------------------------
 # emitted-library access
 
+def _transport(T, ch):
+    """Transport on an explicit channel; a service without google.api.default_host has no default for `host` in some template sets."""
+    try:
+        return T(channel=ch)
+    except TypeError as e:
+        if "host" not in str(e):
+            raise
+        return T(channel=ch, host="hostless.verif.invalid")
+
+
 class Lib:
     def __init__(self, root_pkg):
         self.root_pkg = root_pkg
@@ -241,7 +251,7 @@ class Lib:
         ch = grpc.insecure_channel(target)
         if log is not None:
             ch = RecChannel(ch, log)
-        return C(transport=T(channel=ch))
+        return C(transport=_transport(T, ch))
 
     def aio_client(self, svc, target, log=None):
         """Must be called inside a running event loop."""
@@ -250,7 +260,7 @@ class Lib:
         ch = grpc.aio.insecure_channel(target)
         if log is not None:
             ch = RecAioChannel(ch, log)
-        return C(transport=T(channel=ch))
+        return C(transport=_transport(T, ch))
 
     def rest_client(self, svc, host):
         from google.auth.credentials import AnonymousCredentials
